@@ -108,6 +108,7 @@ class Escape:
         self._sites = {}
         self._flows = {}
         self._esc = None
+        self.term = {}
 
     def flow(self, f):
         if f.usr not in self._flows:
@@ -302,8 +303,18 @@ class Escape:
                     callee = P.fns[e.dst]
                     if PRIMITIVES.match(callee.pq):
                         continue
-                    # noexcept boundaries are not modelled; thread roots are not calls
+                    # thread roots are not calls.  An exception that leaves a nothrow function (noexcept, or a destructor) never reaches a
+                    # handler: it is std::terminate.  Such a site is carried up through every caller whatever try blocks enclose the call,
+                    # so that a root's report shows it (self.term[u] = keys that terminate on their way to u).
                     for key, (s, _) in list(esc[e.dst].items()):
+                        term = callee.d.get("nothrow") or key in self.term.get(e.dst, ())
+                        if term:
+                            if key in self.term.setdefault(u, set()):
+                                continue
+                            self.term[u].add(key)
+                            esc[u][key] = (s, e)
+                            changed = True
+                            continue
                         if key in esc[u]:
                             continue
                         if self.caught_at(f, e.node, s.exc):
@@ -329,8 +340,9 @@ class Escape:
                 out.append("%s: %s at %s" % (self.prog.fns[u].pq, s.what, s.loc()))
                 break
             f = self.prog.fns[u]
-            out.append("%s -> %s at %s" % (f.pq, self.prog.fns[e.dst].pq,
-                                           f.loc(e.node) if isinstance(e.node, int) else "scope exit"))
+            out.append("%s -> %s%s at %s" % (f.pq, self.prog.fns[e.dst].pq,
+                                             " [declared nothrow: the exception cannot leave it, std::terminate]" if self.prog.fns[e.dst].d.get("nothrow") else "",
+                                             f.loc(e.node) if isinstance(e.node, int) else "scope exit"))
             u = e.dst
         return out
 
@@ -355,7 +367,7 @@ class Escape:
             for key, (s, _) in esc.get(e.dst, {}).items():
                 if classes and s.cls not in classes:
                     continue
-                if self.caught_at(f, node, s.exc):
+                if self.caught_at(f, node, s.exc) and not (self.prog.fns[e.dst].d.get("nothrow") or key in self.term.get(e.dst, ())):
                     continue
                 res.append((s, ["%s -> %s at %s" % (f.pq, self.prog.fns[e.dst].pq, f.loc(node))] +
                             self.chain(e.dst, key)))
